@@ -73,7 +73,7 @@ def fixpoint(ctx, cfg, MAX):
     names = field_names(cr)
     res = Result()
     # initial state
-    an = analyse(ctx, cfg, 'smt_strings::new_automaton', [])
+    an = analyse(ctx, cfg, ctor_path(ctx.crate(cfg)), [])
     rets = an.rets
     if len(rets) != 1 or not isinstance(rets[0].value, X.Adt):
         raise X.Unanalysable('new_automaton does not return a single aggregate')
@@ -307,11 +307,20 @@ def run_c17(ctx, MAX):
     guarded(ctx, 'C17.R3', 'C17.R3/parse_smt_literal-driver', literal_driver, 'C17.R3')
 
 
+def ctor_path(cr):
+    """the function that makes a fresh automaton: new_automaton(), or whatever argument-less function of the module
+    returns a ParsingAutomaton (the free function may have become an associated `new`)"""
+    if cr.fn('smt_strings::new_automaton') is not None:
+        return 'smt_strings::new_automaton'
+    cands = [f.path for f in cr.nontest_fns() if f.path.startswith('smt_strings::') and f.arg_count == 0 and f.d.get('ret_ty') == PA and f.def_kind != 'Closure']
+    return cands[0] if len(cands) == 1 else 'smt_strings::new_automaton'
+
+
 def derived_from_new_automaton(t, ip):
     """the automaton term t is new_automaton() itself, that object after some calls on it (post versions), or the
     loop-carried version of it (a head variable whose entry value, recorded by the interpreter, is such a term)"""
     for _ in range(4):
-        if 'new_automaton' in T.show(t):
+        if ctor_path(ip.crate) in T.show(t):
             return True
         nxt = None
         for rec in ip.loop_records.values():
@@ -332,7 +341,7 @@ def literal_driver(ctx, rule='C17.R3'):
     still buffered at the end and makes the string from that automaton's buffer (call log + exhaustion of the iteration)."""
     from .. import calllog
     for cfg in ('dev', 'rel'):
-        log = calllog.run(ctx, cfg, 'smt_strings::parse_smt_literal')
+        log = calllog.run(ctx, cfg, 'smt_strings::parse_smt_literal', opaque=[ctor_path(ctx.crate(cfg))])
         ip, fn = log.ip, log.fn
         okit = len(log.iterations) >= 1
         for it in log.iterations:
@@ -355,7 +364,7 @@ def literal_driver(ctx, rule='C17.R3'):
             nret += 1
             calls = o.state.calls
             names = [c[0].rsplit('::', 1)[1] for c in calls]
-            ok = names == ['new_automaton', 'flush_pending', 'make'] and loop_exhausted(ip, o.state)
+            ok = names == [ctor_path(ip.crate).rsplit('::', 1)[1], 'flush_pending', 'make'] and loop_exhausted(ip, o.state) and calls[0][0] == ctor_path(ip.crate)
             if ok:
                 parser = calls[1][1][0]
                 ok = calls[2][1][0] == ('fld', ('post', PA + '::flush_pending', 0, parser), 'string_so_far') and ip.to_term(o.state, o.value) == calllog.call_term(calls[2])
@@ -390,8 +399,9 @@ def literal_plumbing(ctx):
                     units.append(cr.fn(nm))
                 else:
                     callees.append(nm)
-    okset = set(callees) <= {'smt_strings::new_automaton', PA + '::accept', PA + '::flush_pending', 'smt_strings::SmtString::make'}
-    need = all(n in callees for n in ('smt_strings::new_automaton', PA + '::accept', PA + '::flush_pending', 'smt_strings::SmtString::make'))
+    ctor = ctor_path(cr)
+    okset = set(callees) <= {ctor, PA + '::accept', PA + '::flush_pending', 'smt_strings::SmtString::make'}
+    need = all(n in callees for n in (ctor, PA + '::accept', PA + '::flush_pending', 'smt_strings::SmtString::make'))
     ctx.obligation(okset and need)
     (ctx.ok if okset and need else ctx.violation)('C17.R3', 'C17.R3/parse_smt_literal/only-drives-the-automaton', fn.path, fn.site(), {'callees': sorted(set(callees))})
     # (that make receives the buffer of that same automaton after flush_pending is decided by literal_driver on the
